@@ -131,7 +131,7 @@ func hashJoinKey(val TypedValue) string {
 		return "blob\x00" + string(b)
 	}
 	// INTEGER and FLOAT compare numerically (Compare): 10 and 10.0 must share a key
-	if f, ok := raw.(float64); ok && f == float64(int64(f)) && f > -9e18 && f < 9e18 {
+	if f, ok := raw.(float64); ok && f >= -9223372036854775808.0 && f < 9223372036854775808.0 && f == float64(int64(f)) {
 		raw = int64(f)
 	}
 	return fmt.Sprintf("%T\x00%v", raw, raw)
